@@ -379,3 +379,94 @@ def check_policy_forward(ctx, fb, rule, entries, any_family):
                 seen_entries.add((f.qn, len(f.params), p))
             ctx.instance(rule, 'R-POLICYFWD %s/%d <%s>' % (f.qn, len(f.params), POLICY_NAMES.get(p, p)), None)
     return seen_entries
+
+
+# ---------------------------------------------------------------------------------------------------------------------
+# R-FORWARD: an input handed back as the output outside the strategy needs the policy's justification
+class _WrapWalker(pathwalk.Walker):
+    """paths of a public combinator wrapper; free helper templates of the same header are inlined.
+    events: ('strategy', callee) a call of when::When / of a sibling overload; ('takecore', loc) the core of an input is
+    taken out of its handle; ('ready', truth), ('hasvalue', truth), ('count-eq', constant, truth)"""
+    loop_bound = 1
+    max_paths = 20000
+
+    def inline(self, fn, node, st):
+        g = self.fb.fn.get(node.get('ck'))
+        if g is None or g.cfg is None or st.depth >= 2:
+            return None
+        if not g.cls and g.file == fn.file and g.qn != fn.qn and not g.qn.startswith('yaclib::when::'):
+            return g
+        return None
+
+    def on_node(self, fn, n, st):
+        if n['k'] not in ('CallExpr', 'CXXMemberCallExpr'):
+            return
+        cn = n.get('cn', '')
+        if cn == 'yaclib::when::When' or (st.depth == 0 and cn == fn.qn):
+            st.events.append(('strategy', cn))
+        elif cn.split('::')[-1] == 'GetCore':
+            st.events.append(('takecore', fn.loc(n)))
+
+    def on_edge(self, fn, ci, taken, st):
+        c = fn.sn(ci)
+        neg = False
+        while c is not None and c['k'] == 'UnaryOperator' and c['op'] == '!':
+            neg = not neg
+            c = fn.sn(c['ch'][0])
+        if c is None:
+            return
+        truth = taken != neg
+        if c['k'] == 'BinaryOperator' and c['op'] in ('==', '!='):
+            a, b = fn.sn(c['ch'][0]), fn.sn(c['ch'][1])
+            for x, y in ((a, b), (b, a)):
+                if x is not None and y is not None and y.get('v') is not None and x['k'] == 'DeclRefExpr' and \
+                        x.get('id') in fn.params:
+                    st.events.append(('count-eq', y['v'], truth == (c['op'] == '==')))
+            return
+        names = [fn.nodes[j].get('cn', '') for j in fn.deep_descendants(c['i'])] + [c.get('cn', '')]
+        if any(x.split('::')[-1] == 'Ready' for x in names) and not any('operator bool' in x for x in names):
+            st.events.append(('ready', truth))
+        if any(x.startswith('yaclib::Result::operator bool') or x == 'yaclib::Result::operator bool' for x in names):
+            st.events.append(('hasvalue', truth))
+
+
+def check_any_forward(ctx, fb, rule):
+    """R-FORWARD (WhenAny wrappers): a path that takes the core of an input and returns without going through
+    when::When / the sibling overload makes that input the output.  That is the property's outcome only when
+      * there is exactly one input (count == 1), or
+      * the policy is None and the input is Ready (whatever completes first), or
+      * the input is Ready with a value (first value wins under every policy);
+    under FirstFail / LastFail a failed input decides nothing while other inputs can still produce a value."""
+    n = 0
+    for f in fb.fn.values():
+        if f.qn != 'yaclib::WhenAny' or f.cfg is None or '/include/yaclib/' not in f.file:
+            continue
+        pol = {e.split('=')[1] for e in f.pe if e.split('=')[0] == POLICY_ENUM}
+        if len(pol) != 1:
+            continue
+        p = POLICY_NAMES.get(next(iter(pol)), '?')
+        key = 'R-FORWARD yaclib::WhenAny/%d <%s>' % (len(f.params), p)
+        try:
+            res = _WrapWalker(fb).run(f)
+        except pathwalk.TooManyPaths as e:
+            ctx.broken('%s: %s' % (f.full[:120], e))
+        ctx.instance(rule, key, dict(paths=len(res)))
+        n += 1
+        for st, _ in res:
+            ev = st.events
+            take = [e for e in ev if e[0] == 'takecore']
+            if not take or any(e[0] == 'strategy' for e in ev):
+                continue
+            single = ('count-eq', 1, True) in ev
+            ready = ('ready', True) in ev
+            value = ('hasvalue', True) in ev
+            if single or (ready and (p == 'None' or value)):
+                continue
+            ctx.report(rule, key, take[0][1], 'an input is handed back as the output of WhenAny<%s> without going '
+                       'through the strategy, on a path that established neither count == 1 nor that this input is '
+                       'Ready%s: %s' % (p, '' if p == 'None' else ' with a value',
+                                       'a failed input decides nothing under this policy while another input can '
+                                       'still deliver a value' if ready else 'its outcome is not known yet'),
+                       'instantiation: ' + f.full[:300])
+            break
+    return n
